@@ -69,6 +69,7 @@ func c08Jobs(tier string) []*Job {
 						// instant of the empty proposal, in every order relative to it; maximum = 3 x minimum
 						for _, at := range []int{30_000, 12_500} {
 							mixed := timedScen(fmt.Sprintf("C08-N%d-%s-dyn30-idle-then-tx-at-%ds", n, amevName(a), at/1000), n, "C08", withAMEV(a), withDyn(30), withHeights(3), withK(k), withHorizon(3*4+2), withPool(), withNewTx(at))
+							mixed.Dev.NotifyLag = true
 							jobs = append(jobs, job(mixed, per))
 						}
 					}
@@ -77,6 +78,12 @@ func c08Jobs(tier string) []*Job {
 				jobs = append(jobs, job(sc, per))
 			}
 		}
+	}
+	// a backup whose pool lacks a proposed transaction (fetched on request) is not a fault either
+	for _, a := range []int64{-1, 0} {
+		p0 := primaryAt(5, 0, 4)
+		ms := timedScen(fmt.Sprintf("C08-N4-%s-backup-fetches-a-transaction", amevName(a)), 4, "C08", withAMEV(a), withHeights(2), withK(2), withHorizon(2*3+2), withMissing((p0+1)%4, 101))
+		jobs = append(jobs, job(ms, per))
 	}
 	// unbounded: every interleaving at two focus nodes, N=4, one height (others process eagerly in default order)
 	for _, f := range [][]int{{0, 1}, {1, 2}, {2, 3}, {0, 3}} {
